@@ -92,6 +92,7 @@ var docFaults = []faultSpec{
 	{"KnownRootType", "operation-kind-without-root", siteDoc},
 	{"NoUndefinedVariables", "undefined-variable", siteVar},
 	{"NoUndefinedVariables", "undefined-variable-in-directive", siteSel},
+	{"NoUndefinedVariables", "undefined-variable-in-fragment-definition-directive", siteSel},
 	{"NoUnusedVariables", "unused-variable", siteOp},
 	{"UniqueVariableNames", "duplicate-variable", siteOp},
 	{"VariablesAreInputTypes", "variable-of-output-type", siteOp},
@@ -175,19 +176,26 @@ func fkOf(variant string) int {
 	return 0
 }
 
+type faultState struct {
+	fk     int
+	count  int
+	target int
+	done   bool
+}
+
 // InjectDocFault picks a rule uniformly, then one of its injectors; when the schema or the carrier
 // document offers no site for it, another one is tried. The result names what was injected.
 func InjectDocFault(r *rng.R, s *Schema, size int) DocFault {
 	for try := 0; try < 40; try++ {
 		rule := rng.Pick(r, DocRules)
 		fk := rng.Pick(r, faultsByRule[rule])
-		if f, ok := injectDocFault(r, s, size, fk); ok {
-			return f
+		if f, ok := injectDocFaults(r, s, size, []int{fk}); ok {
+			return f[0]
 		}
 	}
 	// always possible
-	f, _ := injectDocFault(r, s, size, fkOf("unused-fragment"))
-	return f
+	f, _ := injectDocFaults(r, s, size, []int{fkOf("unused-fragment")})
+	return f[0]
 }
 
 // InjectDocFaultVariant injects the given "Rule/variant"; ok=false if no site was found in a few tries.
@@ -195,8 +203,8 @@ func InjectDocFaultVariant(r *rng.R, s *Schema, size int, ruleVariant string) (D
 	for i, f := range docFaults {
 		if i > 0 && f.rule+"/"+f.variant == ruleVariant {
 			for try := 0; try < 4; try++ {
-				if d, ok := injectDocFault(r, s, size, i); ok {
-					return d, true
+				if d, ok := injectDocFaults(r, s, size, []int{i}); ok {
+					return d[0], true
 				}
 			}
 		}
@@ -204,65 +212,162 @@ func InjectDocFaultVariant(r *rng.R, s *Schema, size int, ruleVariant string) (D
 	return DocFault{}, false
 }
 
-func injectDocFault(r *rng.R, s *Schema, size int, fk int) (DocFault, bool) {
-	seed := r.U64()
-	// pass 1: count the opportunities
-	g := newDocGen(rng.New(seed), s, size)
-	g.fk, g.fmode = fk, 1
-	g.prepareFault()
-	g.generate()
-	d := g.finish()
-	n := g.fcount
-	if docFaults[fk].site == siteDoc {
-		g.fmode = 2
-		if !g.docFault(d) {
-			return DocFault{}, false
+// InjectDocFaults injects up to n (≥ 1) faults of different rules into one carrier document.
+// Every returned entry describes one fault that was actually injected; all entries share Doc/Info.
+// Faults injected later may land inside a selection added by an earlier one.
+func InjectDocFaults(r *rng.R, s *Schema, size int, n int) []DocFault {
+	if n < 1 {
+		n = 1
+	}
+	for try := 0; try < 20; try++ {
+		var fks []int
+		seen := map[string]bool{}
+		for len(fks) < n {
+			rule := rng.Pick(r, DocRules)
+			if seen[rule] {
+				continue
+			}
+			seen[rule] = true
+			fks = append(fks, rng.Pick(r, faultsByRule[rule]))
 		}
-		return DocFault{Rule: docFaults[fk].rule, Variant: docFaults[fk].variant, Doc: d.Text, Info: d}, true
+		if f, ok := injectDocFaults(r, s, size, fks); ok {
+			return f
+		}
 	}
-	if n == 0 {
-		return DocFault{}, false
+	return []DocFault{InjectDocFault(r, s, size)}
+}
+
+func injectDocFaults(r *rng.R, s *Schema, size int, fks []int) ([]DocFault, bool) {
+	seed := r.U64()
+	mk := func(mode int, prev []*faultState) *docGen {
+		g := newDocGen(rng.New(seed), s, size)
+		g.fmode = mode
+		for i, fk := range fks {
+			st := &faultState{fk: fk}
+			if prev != nil {
+				if prev[i].count > 0 {
+					st.target = r.Intn(prev[i].count)
+				} else {
+					st.done = true // no site: never offered
+					st.target = -1
+				}
+			}
+			g.fs = append(g.fs, st)
+		}
+		g.prepareFault()
+		return g
 	}
-	// pass 2: same seed, inject at a random opportunity
-	g = newDocGen(rng.New(seed), s, size)
-	g.fk, g.fmode, g.ftarget = fk, 2, r.Intn(n)
-	g.prepareFault()
-	g.generate()
-	d = g.finish()
-	if !g.fdone {
-		return DocFault{}, false
+	// pass 1: count the opportunities of every fault
+	g1 := mk(1, nil)
+	g1.generate()
+	d := g1.finish()
+	g := g1
+	needPass2 := false
+	for _, st := range g1.fs {
+		if docFaults[st.fk].site != siteDoc && st.count > 0 {
+			needPass2 = true
+		}
 	}
-	return DocFault{Rule: docFaults[fk].rule, Variant: docFaults[fk].variant, Doc: d.Text, Info: d}, true
+	if needPass2 {
+		// pass 2: same seed, inject each at a random one of its opportunities
+		g = mk(2, g1.fs)
+		g.generate()
+		d = g.finish()
+	}
+	var out []DocFault
+	for _, st := range g.fs {
+		ok := st.done && st.target >= 0
+		if docFaults[st.fk].site == siteDoc {
+			g.cur, g.fk, g.fmode = st, st.fk, 2
+			ok = g.docFault(d)
+		}
+		if ok {
+			out = append(out, DocFault{Rule: docFaults[st.fk].rule, Variant: docFaults[st.fk].variant})
+		}
+	}
+	if len(out) == 0 {
+		return nil, false
+	}
+	for i := range out {
+		out[i].Doc, out[i].Info = d.Text, d
+	}
+	return out, true
+}
+
+func (g *docGen) hasSite(site int) bool {
+	for _, st := range g.fs {
+		if docFaults[st.fk].site == site {
+			return true
+		}
+	}
+	return false
+}
+
+// eachFault offers a site to every pending fault of that site kind.
+func (g *docGen) eachFault(site int, fn func()) {
+	prev, prevFk := g.cur, g.fk
+	for _, st := range g.fs {
+		if st.done || docFaults[st.fk].site != site {
+			continue
+		}
+		g.cur, g.fk = st, st.fk
+		fn()
+	}
+	g.cur, g.fk = prev, prevFk
+}
+
+// anyFault is eachFault for hooks that replace what is being written: the first taker wins.
+func (g *docGen) anyFault(site int, fn func() bool) bool {
+	prev, prevFk := g.cur, g.fk
+	defer func() { g.cur, g.fk = prev, prevFk }()
+	for _, st := range g.fs {
+		if st.done || docFaults[st.fk].site != site {
+			continue
+		}
+		g.cur, g.fk = st, st.fk
+		if fn() {
+			return true
+		}
+	}
+	return false
 }
 
 func (g *docGen) prepareFault() {
-	if docFaults[g.fk].site == siteVal {
-		g.lit.faultFn = g.valueFault
-	}
-	if docFaults[g.fk].site == siteSub {
-		g.forceKind = "subscription"
-	}
 	g.noDev = true
 	g.lit.noNestedHuge = true
-	if docFaults[g.fk].site == siteVar {
+	g.lit.bigNum = false // the carrier document stays free of known library deviations
+	if g.hasSite(siteVal) {
+		g.lit.faultFn = func(lt *TypeRef, def *TypeDef, fl uint8) bool {
+			return g.anyFault(siteVal, func() bool { return g.valueFault(lt, def, fl) })
+		}
+	}
+	if g.hasSite(siteSub) {
+		g.forceKind = "subscription"
+	}
+	if g.hasSite(siteVar) {
 		g.lit.varBoost = true
 	}
-	g.lit.bigNum = false // the carrier document stays free of known library deviations
 }
 
 func (g *docGen) forceNamed() bool {
-	v := docFaults[g.fk].variant
-	return v == "duplicate-operation-name" || v == "anonymous-plus-named"
+	for _, st := range g.fs {
+		v := docFaults[st.fk].variant
+		if v == "duplicate-operation-name" || v == "anonymous-plus-named" {
+			return true
+		}
+	}
+	return false
 }
 
-// opp reports whether the current opportunity is the chosen one.
+// opp reports whether the current opportunity is the chosen one (of the fault being offered a site).
 func (g *docGen) opp() bool {
-	if g.fmode == 0 || g.fdone {
+	st := g.cur
+	if g.fmode == 0 || st == nil || st.done {
 		return false
 	}
-	g.fcount++
-	if g.fmode == 2 && g.fcount-1 == g.ftarget {
-		g.fdone = true
+	st.count++
+	if g.fmode == 2 && st.count-1 == st.target {
+		st.done = true
 		return true
 	}
 	return false
@@ -336,7 +441,7 @@ func (g *docGen) extraFragment(name, cond, body string) {
 
 // selFault appends one faulty selection to the selection set of t (when applicable and chosen).
 func (g *docGen) selFault(t *TypeDef, depth, ic int) {
-	if g.fdone || docFaults[g.fk].site != siteSel || g.inSub {
+	if g.cur == nil || g.cur.done || docFaults[g.fk].site != siteSel || g.inSub {
 		return
 	}
 	r, s := g.r, g.s
@@ -672,6 +777,41 @@ func (g *docGen) selFault(t *TypeDef, depth, ic int) {
 		if g.opp() {
 			typename(" @include(if: $zzUndefined)")
 		}
+	case "undefined-variable-in-fragment-definition-directive":
+		if len(t.overlap) == 0 {
+			return
+		}
+		for _, d := range s.dirsAt["FRAGMENT_DEFINITION"] {
+			if len(d.Args) == 0 {
+				continue
+			}
+			if g.opp() {
+				n := "ZzF" + strconv.Itoa(len(g.extra))
+				saved, savedV, savedF := g.lit.b, g.lit.varFn, g.lit.faultFn
+				g.lit.b, g.lit.varFn, g.lit.faultFn = nil, nil, nil
+				var rest []*ArgDef
+				for _, a := range d.Args[1:] {
+					if a.Required() {
+						rest = append(rest, a)
+					}
+				}
+				g.w(" @" + d.Name + "(" + d.Args[0].Name + ": $zzUndefined")
+				if len(rest) > 0 {
+					g.args(rest, 0)
+					// merge the two parenthesised lists
+					b := string(g.lit.b)
+					i := len(" @" + d.Name + "(" + d.Args[0].Name + ": $zzUndefined")
+					g.lit.b = []byte(b[:i] + ", " + b[i+1:])
+				} else {
+					g.w(")")
+				}
+				ds := string(g.lit.b)
+				g.lit.b, g.lit.varFn, g.lit.faultFn = saved, savedV, savedF
+				g.extra = append(g.extra, []byte("fragment "+n+" on "+t.Name+ds+" { __typename }\n"))
+				g.w(" ..." + n)
+			}
+			return
+		}
 	case "nullable-boolean-at-include":
 		if g.opp() {
 			typename(" @include(if: $zzNullableFlag)")
@@ -883,7 +1023,7 @@ func (g *docGen) overlapTypesFault(t *TypeDef, v string) {
 
 // subFault: faults of the root selection set of a subscription.
 func (g *docGen) subFault(root *TypeDef) {
-	if g.fdone || docFaults[g.fk].site != siteSub {
+	if g.cur == nil || g.cur.done || docFaults[g.fk].site != siteSub {
 		return
 	}
 	var any []*FieldDef
@@ -945,7 +1085,7 @@ func (g *docGen) subFault(root *TypeDef) {
 
 // opFault: nothing in the body; the header faults are applied in finish (opVarFault).
 func (g *docGen) opFault(op *opText) {
-	if g.fdone || g.fmode == 0 || docFaults[g.fk].site != siteOp {
+	if g.cur == nil || g.cur.done || g.fmode == 0 || docFaults[g.fk].site != siteOp {
 		return
 	}
 	v := docFaults[g.fk].variant
@@ -1001,12 +1141,12 @@ func (g *docGen) opHeaderFault() string {
 
 // opVarFault: b ends inside the parenthesised variable list (at least one definition written).
 func (g *docGen) opVarFault(op *opText, b []byte) []byte {
-	if g.fdone || g.fmode == 0 || docFaults[g.fk].site != siteOp {
+	if g.cur == nil || g.cur.done || g.fmode == 0 || docFaults[g.fk].site != siteOp {
 		return b
 	}
 	v := docFaults[g.fk].variant
 	if v == "duplicate-variable" {
-		if g.opp() {
+		if len(op.info.Vars) > 0 && g.opp() {
 			x := op.info.Vars[g.r.Intn(len(op.info.Vars))]
 			b = append(b, ", $"+x.Name+": "+x.Type.String()...)
 		}
@@ -1019,7 +1159,7 @@ func (g *docGen) opVarFault(op *opText, b []byte) []byte {
 }
 
 func (g *docGen) opVarFaultNoVars(op *opText, b []byte) []byte {
-	if g.fdone || g.fmode == 0 || docFaults[g.fk].site != siteOp {
+	if g.cur == nil || g.cur.done || g.fmode == 0 || docFaults[g.fk].site != siteOp {
 		return b
 	}
 	v := docFaults[g.fk].variant
@@ -1090,7 +1230,7 @@ func (g *docGen) docFault(d *Doc) bool {
 
 // varFault: called where a variable may be used (not in const contexts).
 func (g *docGen) varFault(lt *TypeRef, fl uint8) bool {
-	if g.fdone || docFaults[g.fk].site != siteVar {
+	if g.cur == nil || g.cur.done || docFaults[g.fk].site != siteVar {
 		return false
 	}
 	v := docFaults[g.fk].variant
@@ -1151,7 +1291,7 @@ func (g *docGen) varFault(lt *TypeRef, fl uint8) bool {
 
 // valueFault is litGen.faultFn during injection of a siteVal fault.
 func (g *docGen) valueFault(lt *TypeRef, def *TypeDef, fl uint8) bool {
-	if g.fdone || def == nil {
+	if g.cur == nil || g.cur.done || def == nil {
 		return false
 	}
 	v := docFaults[g.fk].variant
